@@ -1468,3 +1468,63 @@ Proof.
   f_equal. rewrite Hn. pose proof (pow2_pos (ce - cs) ltac:(lia)) as Hp.
   rewrite put_full by lia. apply mask_small. rewrite <- Hn. apply nval_range.
 Qed.
+
+(* ====================================================================== *)
+(* descriptors used by the structural tie are the data the theorems are about *)
+(* ====================================================================== *)
+(* lower_op2 is emit_binary on exactly the NIR operator and operands ir_op2 describes (then the result slice) *)
+Lemma lower_op2_via_ir rho o a sa b sb : exists fin : Z -> Z * Z * bool,
+  lower_op2 rho o a sa b sb =
+  let '(n, a', b') := ir_op2 o a sa b sb in option_map fin (emit_binary rho n a' b').
+Proof.
+  destruct o; unfold lower_op2, ir_op2, unify_bitwise, option_map; cbv beta iota zeta;
+    try (eexists; reflexivity).
+  all: try (destruct (nlen (extend a sa (width (unify2 (Sh (nlen a) sa) (Sh (nlen b) sb)))) <? nlen a + (if sb then 1 else 0));
+            eexists; reflexivity).
+  all: destruct sa; eexists; reflexivity.
+Qed.
+
+(* the cell emit_binary evaluates is the one cell_desc2 describes *)
+Lemma emit_binary_desc rho o a b :
+  let '(k, _, _) := bin_table o in
+  let '(asg, bsg, oa, ob) := choose_operands o a b in
+  cell_desc2 o a b = [ckind_code k; b2z asg; b2z bsg; nlen oa; nlen ob; nop2_width o a; b2z (is_divmod o)] /\
+  emit_binary rho o a b =
+  (if is_divmod o
+   then if mask 1 (cell_reduce_bool (nlen ob) 1 (nval rho ob)) =? 0 then Some (mask (nop2_width o a) 0)
+        else cell2 k asg bsg (nlen oa) (nlen ob) (nop2_width o a) (nval rho oa) (nval rho ob)
+   else cell2 k asg bsg (nlen oa) (nlen ob) (nop2_width o a) (nval rho oa) (nval rho ob)).
+Proof.
+  unfold cell_desc2, emit_binary. destruct (bin_table o) as [[k x] y]. destruct (choose_operands o a b) as [[[asg bsg] oa] ob].
+  split; reflexivity.
+Qed.
+
+(* ====================================================================== *)
+(* _ir.emit_rhs for Slice and Concat: pure net selection                    *)
+(* ====================================================================== *)
+Lemma bits_at_sval rho sg v lo w : 0 <= lo -> 0 <= w -> lo + w <= nlen v ->
+  bits_at (sval rho sg v) lo w = bits_at (nval rho v) lo w.
+Proof.
+  intros Hlo Hw Hle. apply Z.bits_inj'. intros i Hi. rewrite !testbit_bits_at by auto.
+  destruct (i <? w) eqn:E; [|reflexivity]. cbn [andb].
+  pose proof (nlen_nonneg v) as Hn. rewrite <- (mask_sval rho sg v).
+  rewrite testbit_mask by auto. replace (i + lo <? nlen v) with true by lia. reflexivity.
+Qed.
+
+(* Slice: result = inner[start:stop]; its value is bits [lo, hi) of the operand's integer value *)
+Theorem slice_rhs_correct rho sg v lo hi : 0 <= lo <= hi -> hi <= nlen v ->
+  nlen (nslice v lo hi) = hi - lo /\ nval rho (nslice v lo hi) = bits_at (sval rho sg v) lo (hi - lo).
+Proof.
+  intros H1 H2. destruct (nslice_spec rho v lo hi H1 H2) as [Hn Hv]. split; [exact Hn|].
+  rewrite Hv. symmetry. apply bits_at_sval; lia.
+Qed.
+
+(* Concat: the nets of the parts one after the other, least significant part first *)
+Theorem cat_rhs_correct rho (parts : list (list net * bool)) :
+  nval rho (flat_map fst parts) = cat_of (map (fun p => (sval rho (snd p) (fst p), nlen (fst p))) parts) /\
+  nlen (flat_map fst parts) = fold_right (fun p acc => nlen (fst p) + acc) 0 parts.
+Proof.
+  induction parts as [|[v sg] r [IHv IHn]]; [split; reflexivity|].
+  cbn [flat_map map fst snd cat_of fold_right]. rewrite nval_app, nlen_app, IHv, IHn. split; [|reflexivity].
+  f_equal. fold (mask (nlen v) (sval rho sg v)). rewrite mask_sval. reflexivity.
+Qed.
